@@ -631,6 +631,8 @@ def _create_odesys(
     if not isinstance(parameter_symbols, OrderedDict):
         raise ValueError("parameter_symbols needs to be an OrderedDict")
 
+    if any(key in substance_symbols for key in parameter_symbols):
+        raise ValueError("parameter key also used as substance key (name clash)")
     symbols = OrderedDict(chain(substance_symbols.items(), parameter_symbols.items()))
     symbols["time"] = time_symbol or backend.Symbol("t")
     if any(symbols["time"] == v for k, v in symbols.items() if k != "time"):
